@@ -3,14 +3,16 @@
 import json
 import subprocess
 
-V = "/verif"
+import os
+V = os.path.dirname(os.path.dirname(os.path.abspath(__file__)))
+BUILD = os.environ.get("VERIF_BUILD", V + "/build")
 _variants = None
 
 
 def variants(harness):
     global _variants
     if _variants is None:
-        out = subprocess.run([V + "/build/vxh", "list"], stdout=subprocess.PIPE, text=True).stdout
+        out = subprocess.run([BUILD + "/vxh", "list"], stdout=subprocess.PIPE, text=True).stdout
         _variants = {}
         for e in json.loads(out):
             _variants.setdefault(e["harness"], []).append(e["variant"])
@@ -23,7 +25,7 @@ _descs = None
 def descs(harness):
     global _descs
     if _descs is None:
-        out = subprocess.run([V + "/build/vxh", "list"], stdout=subprocess.PIPE, text=True).stdout
+        out = subprocess.run([BUILD + "/vxh", "list"], stdout=subprocess.PIPE, text=True).stdout
         _descs = {}
         for e in json.loads(out):
             _descs.setdefault(e["harness"], {})[e["variant"]] = e["desc"]
@@ -198,7 +200,7 @@ PLAN = {
 
 
 def sx(name, **kw):
-    t = {"engine": "seqx", "name": name, "cmd": [V + "/build/seqx/" + name, "--tier", "{tier}", "--json", "{json}"]}
+    t = {"engine": "seqx", "name": name, "cmd": [BUILD + "/seqx/" + name, "--tier", "{tier}", "--json", "{json}"]}
     t.update(kw)
     return [t]
 
@@ -228,8 +230,8 @@ def tasks_for(pid, tier):
         return (ds("suspend", 3 if q else 4, list(range(18, 40)), jobs=2) + ds("suspend", 2 if q else 3, small) +
                 ds("suspend", 1 if q else 2, [9, 12], jobs=8))
     if pid == "C07":
-        pure = list(range(0, 16))
-        two_q = [16, 17, 18, 19, 21, 23, 24, 25, 28, 29, 30, 31, 33, 34, 35, 39, 41]
+        pure = list(range(0, 16)) + [42, 43, 44, 45]
+        two_q = [16, 17, 18, 19, 21, 23, 24, 25, 28, 29, 30, 31, 33, 34, 35, 39, 41, 46]   # 46: re-entry inside the last leaver's window (needs k=2)
         three_q = [20, 22, 26, 27, 32, 40]
         glob = [36] if q else [36, 37]
         return (ds("group", 3 if q else 4, pure, jobs=2) + ds("group", 2, two_q, jobs=6) +
